@@ -110,3 +110,14 @@ proof('C16', 'Every clause is machine-checked. YUV->RGB: for every standard matr
       'Primaries: every supported conversion maps every grey of magnitude <= 2 to a grey within 1e-5 per component (prim_grey, corollary of C06.prim_close: exact row sums are 1). XYB and HSL: for every grey level i/2^20, i = 0..2^20: |X| <= 1e-6, |Y-B| <= 1e-6, black -> 0 within 1e-6, '
       'HSL = (0, 0, v) bit for bit (xyb_grey, hsl_grey: exhaustive native_decide in 16 slices lifted by allFrom_spec). native_decide theorems trust the Lean compiler/runtime in addition to the kernel.',
       'Lean 4: exhaustive evaluation of the bit-exact model (native_decide) with soundness lemmas + corollary of the C06 real analysis; correspondence ties the model to the code')
+
+partial('C19', 'Proved (kernel, over the reals, both formats and both FMA modes, for all finite operands of magnitude <= 2): mul_vec/mul_arr, mul_mat (every entry), dot, cross and component_mul are within 3e-6 absolute, hence within '
+        '1e-5*max(1,|exact|), of the exact products (mulVec_accurate32/64, mulMat_accurate32/64, dot_, cross_, cmul_accurate32/64: dot-product rounding analysis); scalar_div is within 1e-5*max(1,|q|) of the real quotient for any finite non-zero divisor '
+        '(sdiv1_32/64, from the division lemma div_val); transpose is an exact involution, scalar_div/component_mul element-wise, mul_vec = mul_arr (structural, rfl). NOT proved: A*invert(A) = I within 1e-4 for |det| >= 0.5 and the bit-exact identity() clause; '
+        'those rest on the correspondence (operands drawn from structure classes: diagonal, permutation, shear, triangular, sparse, colour matrices) and the exact f64 oracle - hence category other.',
+        'Lean 4 rounding-error analysis over the reals for the products + structural theorems; correspondence + exact oracle for invert/identity')
+partial('C18', 'Proved (kernel): totality - for every bit pattern exp2 feeds to_int_unchecked a finite value in [-128,129] (exp2_total, re-proved against the clamp constants regenerated from the source), hence powf, expf and every transfer curve return a value '
+        '(powf_total, expf_total, curve_total); cbrtf accuracy - for EVERY normal argument of either sign the result is finite and within relative 2^-24 + 1e-11 of the real cube root (cbrtf_accurate: the integer seed is within 1/20 for all exponents and fractions, '
+        'by periodicity in the exponent and a 192-cell kernel-evaluated check re-run against the regenerated constants 3 and B1; two binary64 Halley steps analysed over the reals give 3.4e-12; one final binary32 rounding). This is the 1-ulp clause in relative form '
+        '(exactly <= 1 ulp except within 1.7e-4 below a power of two, where the bound reads 1.0002 ulp). NOT proved: bit-exact oddness, the powf (2.5e-4 + 8e-6|y|) and expf (1e-5, overflow/underflow ranges) contracts; these rest on the bit-exact correspondence and the f64 oracle (all 2^32 arguments in the thorough tier).',
+        'Lean 4 real-semantics proofs (totality; cbrtf seed + Halley analysis); correspondence + exhaustive oracle for powf/expf accuracy')
